@@ -341,6 +341,28 @@ pub fn run(rep: &mut Report, tier: &str)
         }
     }
 
+    // 4b. every non-ASCII character of the basic multilingual plane, inside a string of exactly
+    //     43 *bytes* (the length test counts bytes), at the first, a middle and the last position
+    for cp in 0x80u32..=0xffff
+    {
+        let c = match char::from_u32(cp) { Some(c) => c, None => continue };
+        let fill = 43 - c.len_utf8();
+        for pos in [0usize, fill / 2, fill]
+        {
+            let mut st = String::new();
+            st.push_str(&"0".repeat(pos));
+            st.push(c);
+            st.push_str(&"1".repeat(fill - pos));
+            evals += 1;
+            match std::panic::catch_unwind(|| Ticket::from_human_readable(&st).is_ok())
+            {
+                Ok(true) => bad.add("a string with a foreign character is accepted as a hash", format!("U+{:04X} at byte {}", cp, pos)),
+                Ok(false) => {},
+                Err(_) => bad.add("decoding panicked", format!("U+{:04X}", cp)),
+            }
+        }
+    }
+
     // 5. directory hashes: every tree shape with <= 3 entries and depth <= 2 x every single-point change
     let names = ["a", "b", "c"];
     let contents: [&[u8]; 2] = [b"x", b"y"];
